@@ -72,7 +72,11 @@ void harness_name_parse(void)
 #ifdef C33_STRICT_LABELTYPE
 		VP_ASSERT(r == -1, "C33: name with a reserved label type (top bits 01/10, RFC 1035 4.1.4) accepted as a compression pointer");
 #endif
+#ifndef C33_STRICT_LABELTYPE
 		VP_WITNESS("reserved label type met");
+#else
+		if (r == -1) VP_WITNESS("reserved label type rejected");
+#endif
 		return;
 	}
 	if (rr != DNSREF_OK) {
